@@ -114,6 +114,39 @@ tuple_access!(c19_tuple_coor32, |r: [f64; 4]| Coor32([r[0] as f32, r[1] as f32])
 //@h {"id":"C19.K.tuple.pair","props":["C19","C09"],"tier":"quick","kind":"complete","timeout":300,"text":"(f64,f64): same contract, dim 2"}
 tuple_access!(c19_tuple_pair, |r: [f64; 4]| (r[0], r[1]), 2usize, |v: f64| v);
 
+// AngularUnits: conversions of the two leading (angular) elements only
+macro_rules! angular_units {
+    ($name:ident, $mk:expr, $dim:expr) => {
+        #[kani::proof]
+        fn $name() {
+            // the angular elements are probe values (symbolic float products cannot be compared by CBMC in reasonable
+            // time); height and epoch are fully symbolic
+            let probes: [(f64, f64); 4] = [(0.5, -1.25), (std::f64::consts::FRAC_PI_4, 3.0), (-0.0, 1e-300), (f64::NAN, f64::INFINITY)];
+            let pi: usize = kani::any();
+            kani::assume(pi < 4);
+            let zt: [f64; 2] = kani::any();
+            let raw = [probes[pi].0, probes[pi].1, zt[0], zt[1]];
+            let c = ($mk)(raw);
+            let (x, y) = c.xy();
+            let deg = c.to_degrees();
+            let rad = c.to_radians();
+            let sec = c.to_arcsec();
+            let geo = c.to_geo();
+            assert!(same(deg.nth(0), x.to_degrees()) && same(deg.nth(1), y.to_degrees()), "C19.K.units.to_degrees: the two leading elements are converted from radians to degrees");
+            assert!(same(rad.nth(0), x.to_radians()) && same(rad.nth(1), y.to_radians()), "C19.K.units.to_radians: the two leading elements are converted from degrees to radians");
+            assert!(same(sec.nth(0), x.to_degrees() * 3600.) && same(sec.nth(1), y.to_degrees() * 3600.), "C19.K.units.to_arcsec: the two leading elements are converted from radians to seconds of arc");
+            assert!(same(geo.nth(0), y.to_degrees()) && same(geo.nth(1), x.to_degrees()), "C19.K.units.to_geo: converted to degrees and swapped");
+            let k: usize = kani::any();
+            kani::assume(k >= 2 && k < $dim);
+            assert!(same(deg.nth(k), c.nth(k)) && same(rad.nth(k), c.nth(k)) && same(sec.nth(k), c.nth(k)) && same(geo.nth(k), c.nth(k)), "C19.K.units.frame: height and epoch are not angles: bit-identical after every unit conversion");
+        }
+    };
+}
+//@h {"id":"C19.K.units.coor4d","props":["C19"],"tier":"quick","kind":"bounded","bound":"4 probe pairs for the angular elements; height and epoch all f64 bits","timeout":900,"text":"AngularUnits on Coor4D (angular elements: 4 probe pairs incl. NaN/inf/-0; height and epoch: all f64 bits): to_degrees / to_radians / to_arcsec / to_geo convert (and to_geo swaps) the two leading elements only; height and epoch come back bit-identical"}
+angular_units!(c19_units_coor4d, |r: [f64; 4]| Coor4D(r), 4usize);
+//@h {"id":"C19.K.units.coor3d","props":["C19"],"tier":"quick","kind":"bounded","bound":"4 probe pairs for the angular elements; height all f64 bits","timeout":900,"text":"AngularUnits on Coor3D: same contract, height bit-identical"}
+angular_units!(c19_units_coor3d, |r: [f64; 4]| Coor3D([r[0], r[1], r[2]]), 3usize);
+
 // ---------------------------------------------------------------------------------------------
 // arithmetic operators: element-wise, bit-equal to the scalar operation
 // ---------------------------------------------------------------------------------------------
